@@ -2,6 +2,8 @@ import Ledger.Driver.Core
 import Ledger.Driver.MachineDecode
 import Ledger.Machine.Resolve
 import Ledger.Machine.TxScript
+import Ledger.Machine.Compile
+import Ledger.Machine.VM
 
 /-! Handlers of `ldriver_machine`: `prog` (+ per-property variants). -/
 namespace Ledger.Driver
@@ -293,6 +295,41 @@ def c23Check (inp : Input) (env : Env) (stmts : List Stmt) (pairs : List (String
       let fin := init + netFlow ps a c
       decide (min init (-bound) ≤ fin)
 
+/-! ## Byte code rendering (same canonical strings as wlmachine/run.go `dumpProgram`) -/
+
+def cvalueStr : CValue → String
+  | .account s => "account:" ++ s
+  | .asset s => "asset:" ++ s
+  | .number n => "number:" ++ toString n
+  | .str s => "string:" ++ s
+  | .portion .remaining => "portion:remaining"
+  | .portion (.specific r) => s!"portion:{r.num}/{r.den}"
+
+def resStr : Res → String
+  | .const v => "const:" ++ cvalueStr v
+  | .var ty n => s!"var:{ty.name}:{n}"
+  | .varMeta ty n a k => s!"meta:{ty.name}:{n}:{a}:{k}"
+  | .varBalance n a c => s!"balance:{n}:{a}:{c}"
+  | .mon a v => s!"mon:{a}:{v}"
+
+def neededStrs (nd : List (Nat × Nat)) : List String :=
+  let sorted := nd.toArray.qsort (fun x y => x.1 < y.1 || (x.1 = y.1 && x.2 < y.2))
+  sorted.toList.map fun (a, m) => s!"{a}:{m}"
+
+/-- Compares the model's program with the real compiler's dump; `none` = no dump. -/
+def programAgrees (out : Json) (p : Program) : Except String (Option Bool) := do
+  match out.getObjVal? "program" with
+  | .ok (.obj _) =>
+    let pj ← field out "program"
+    let instr ← (← arrField pj "instr").mapM fun j => do
+      match j.getNat? with
+      | .ok n => pure n
+      | .error e => throw e
+    let res ← strArrField pj "res"
+    let needed ← strArrField pj "needed"
+    pure (some (instr = p.instrs && res = p.res.map resStr && needed = neededStrs p.needed))
+  | _ => pure none
+
 /-! ## The `prog` handler -/
 
 def shortTag (s : String) : String :=
@@ -310,6 +347,7 @@ def handleProg (which : String) : Handler := fun inp out => do
   -- model
   let tc := typecheck script
   let modelCompileErr := match tc with | .ok _ => "" | .error m => m
+  let mProg := compile script
   let res := sem Cfg.fixed script input
   let prep := match tc with | .ok _ => some (prepare Cfg.fixed script input) | .error _ => none
   let (mErr, mPanic, mPostings, mTx, mAcc) :=
@@ -326,7 +364,11 @@ def handleProg (which : String) : Handler := fun inp out => do
     ("compileErr", modelCompileErr), ("err", mErr), ("panic", mPanic),
     ("postings", Json.arr (mPostings.map jPosting).toArray), ("txMeta", mTx), ("accMeta", mAcc),
     ("queried", match mQueried with | some q => jStrs q | none => Json.null),
-    ("rendered", if textOk then Json.null else Json.str rendered)]
+    ("rendered", if textOk then Json.null else Json.str rendered),
+    ("program", match mProg with
+      | .ok p => Json.mkObj [("instr", Json.arr (p.instrs.map (fun (n : Nat) => Json.num (JsonNumber.fromNat n))).toArray),
+          ("res", jStrs (p.res.map resStr)), ("needed", jStrs (neededStrs p.needed))]
+      | .error e => Json.str e)]
   let agreeCompile := real.compileErr = modelCompileErr
   let agreeRun :=
     if modelCompileErr ≠ "" then true
@@ -337,7 +379,25 @@ def handleProg (which : String) : Handler := fun inp out => do
       (match mQueried with
        | some q => if real.err = "" then real.queried = q else true
        | none => true)
-  let agree := textOk && agreeCompile && agreeRun
+  -- byte code: instruction for instruction, resource table, NeededBalances
+  let progOk ← match mProg with
+    | .ok p => do
+      match ← programAgrees out p with
+      | some b => pure b
+      | none => pure (real.compileErr ≠ "")
+    | .error e => pure (e = modelCompileErr)
+  -- byte-code VM model: exec (compile ast) must give what `sem` gives (and hence the real VM)
+  let outcomeOf (r : Except Err Result) : String × List Posting × Json × Json :=
+    match r with
+    | .ok x => ("", x.postings, jStrMap (x.txMeta.map fun (k, v) => (k, valueStr v)), jAccMeta x.accMeta)
+    | .error (.compile m) => ("compile:" ++ m, [], Json.mkObj [], Json.mkObj [])
+    | .error (.run st k) => (st ++ ":" ++ k, [], Json.mkObj [], Json.mkObj [])
+    | .error (.panic sg) => ("panic:" ++ sg, [], Json.mkObj [], Json.mkObj [])
+    | .error (.fault w) => ("fault:" ++ w, [], Json.mkObj [], Json.mkObj [])
+  let oSem := outcomeOf res
+  let oVm := outcomeOf (semBytecode Cfg.fixed script input)
+  let vmOk := oSem.1 = oVm.1 && oSem.2.1 = oVm.2.1 && oSem.2.2.1 == oVm.2.2.1 && oSem.2.2.2 == oVm.2.2.2
+  let agree := textOk && agreeCompile && agreeRun && progOk && vmOk
   -- property predicates on the REAL output
   let okRun := real.compileErr = "" && real.err = "" && real.panic = ""
   let (p22, p23, sendAllAsset) :=
@@ -391,7 +451,9 @@ def handleProg (which : String) : Handler := fun inp out => do
   let note :=
     if !textOk then "rendered text differs from the harness's text"
     else if !agreeCompile then "compile result differs"
+    else if !progOk then "byte code / resources / needed balances differ from the model's `compile`"
     else if !agreeRun then "run result differs"
+    else if !vmOk then "model `exec (compile ast)` differs from model `sem`: " ++ oVm.1
     else if !prop then "property predicate fails on the implementation's output: " ++ sig
     else ""
   pure { model, agree, prop, propModel,
